@@ -187,6 +187,29 @@ def main(tier, seed):
                     back = algopy.vecsym(vu)
                     if not numpy.array_equal(back.data, Ad):
                         rep.violation('symvec:utpm', "UTPM vecsym(symvec(A,'%s')) != A for symmetric A, N=%d" % (uplo, N), dict(kind='symvec', N=N, uplo=uplo))
+                    # every call form on a NON-symmetric polynomial, slice-wise against the (model-checked) array helper: module-level function
+                    # and class method, storage convention given positionally and by keyword, on a UTPM and on a traced Function (recorded
+                    # value, and the graph replayed at another point)
+                    An = numpy.array([[[[dy(rng) for _ in range(N)] for _ in range(N)] for _ in range(P)] for _ in range(D)])
+                    Bn = numpy.array([[[[dy(rng) for _ in range(N)] for _ in range(N)] for _ in range(P)] for _ in range(D)])
+                    want = lambda X: numpy.array([[U.symvec(X[d_, p_], uplo) for p_ in range(P)] for d_ in range(D)])
+                    forms = {'algopy.symvec(UTPM, uplo)': lambda: algopy.symvec(UTPM(An.copy()), uplo).data,
+                             'algopy.symvec(UTPM, UPLO=uplo)': lambda: algopy.symvec(UTPM(An.copy()), UPLO=uplo).data,
+                             'UTPM.symvec(UTPM, uplo)': lambda: UTPM.symvec(UTPM(An.copy()), uplo).data}
+                    cg = algopy.CGraph(); fA = algopy.Function(UTPM(An.copy())); fv = algopy.symvec(fA, uplo); cg.trace_off()
+                    cg.independentFunctionList = [fA]; cg.dependentFunctionList = [fv]
+                    forms['algopy.symvec(Function, uplo): recorded value'] = lambda: fv.x.data
+                    cg2 = algopy.CGraph(); fA2 = algopy.Function(UTPM(An.copy())); fv2 = algopy.symvec(fA2, UPLO=uplo); cg2.trace_off()
+                    forms['algopy.symvec(Function, UPLO=uplo): recorded value'] = lambda: fv2.x.data
+                    for fname, fn in forms.items():
+                        rep.count('symvec:call form', fname.split(':')[0])
+                        if not numpy.array_equal(numpy.asarray(fn()), want(An)):
+                            rep.violation('symvec:form:%s' % fname, "%s with uplo='%s' is not the slice-wise symvec of a non-symmetric matrix, N=%d" % (fname, uplo, N),
+                                          dict(kind='symvec', N=N, uplo=uplo, A=An.tolist()))
+                    cg.pushforward([UTPM(Bn.copy())])
+                    if not numpy.array_equal(numpy.asarray(cg.dependentFunctionList[0].x.data), want(Bn)):
+                        rep.violation('symvec:form:replay', "graph of algopy.symvec(Function, '%s') replayed at another point is not the slice-wise symvec, N=%d" % (uplo, N),
+                                      dict(kind='symvec', N=N, uplo=uplo, A=Bn.tolist()))
                 except Exception as e:
                     rep.violation('symvec:exception', 'symvec/vecsym raises %r (N=%d, UPLO=%s)' % (e, N, uplo), dict(kind='symvec', N=N, uplo=uplo, exc=repr(e)))
 
